@@ -11,36 +11,41 @@ K = "sigpyproc/core/kernels.py::"
 
 
 def register(reg):
+    GB = {"B": Int(0)}          # ghost: the input block starts at sample B of the underlying flat array
+    ATB = "off(inarray) == nchans * B"
+
     # ------------------------------------------------------------------ extract_tim
-    c = Contract(K + "extract_tim", props=["C06"],
+    c = Contract(K + "extract_tim", props=["C06"], ghost_params=dict(GB),
                  params={"inarray": Arr("real", None, view=True), "outarray": Arr("real", "f4"),
                          "nchans": Int(), "nsamps": Int(), "index": Int()},
                  requires=["nchans >= 0", "nsamps >= 0", "nchans * nsamps <= len(inarray)", "index >= 0",
-                           "index + nsamps <= len(outarray)", "distinct(inarray, outarray)"],
+                           "index + nsamps <= len(outarray)", "distinct(inarray, outarray)", ATB],
                  modifies=["outarray"])
-    body = "outarray[index + t] == ssum(arr(inarray), off(inarray) + nchans * t, 1, nchans)"
+    # stated over the absolute output index j (no arithmetic inside the quantified subscript: callers match on it)
+    body = "outarray[j] == rsum(arr(inarray), nchans, B + j - index, nchans)"
     frame = "forall(k, 0, len(outarray), implies(k < index or k >= index + {n}, outarray[k] == old(outarray[k])))"
-    c.loops["0:isamp"] = LoopSpec([("rowsum", f"forall(t, 0, isamp, {body})"), ("frame", frame.format(n="isamp"))])
-    c.ensure("rowsum", f"forall(t, 0, nsamps, {body})")
+    c.loops["0:isamp"] = LoopSpec([("rowsum", f"forall(j, index, index + isamp, {body})"), ("frame", frame.format(n="isamp"))],
+                                  body_hints=[("np.sum is the row sum", "lemma_rsum(arr(inarray), nchans, B + isamp, nchans)")])
+    c.ensure("rowsum", f"forall(j, index, index + nsamps, {body})")
     c.ensure("frame", frame.format(n="nsamps"))
     reg.add(c)
 
     # ------------------------------------------------------------------ extract_bpass
-    c = Contract(K + "extract_bpass", props=["C06"],
+    c = Contract(K + "extract_bpass", props=["C06"], ghost_params=dict(GB),
                  params={"inarray": Arr("real", None, view=True), "outarray": Arr("real", "f4"),
                          "nchans": Int(), "nsamps": Int()},
                  requires=["nchans >= 0", "nsamps >= 0", "nchans * nsamps <= len(inarray)",
-                           "nchans <= len(outarray)", "distinct(inarray, outarray)"],
+                           "nchans <= len(outarray)", "distinct(inarray, outarray)", ATB],
                  modifies=["outarray"])
-    col = "outarray[c] == old(outarray[c]) + ssum(arr(inarray), off(inarray) + c, nchans, {n})"
+    col = "outarray[{c}] == old(outarray[{c}]) + colsum(arr(inarray), nchans, {c}, B, {n})"
     c.loops["0:ichan"] = LoopSpec([
-        ("colsum", "forall(c, 0, ichan, " + col.format(n="nsamps") + ")"),
+        ("colsum", "forall(c, 0, ichan, " + col.format(c="c", n="nsamps") + ")"),
         ("frame", "forall(c, ichan, len(outarray), outarray[c] == old(outarray[c]))")])
     c.loops["1:isamp"] = LoopSpec([
-        ("colsum", "forall(c, 0, ichan, " + col.format(n="nsamps") + ")"),
-        ("cur", col.format(n="isamp").replace("[c]", "[ichan]").replace("+ c,", "+ ichan,")),
+        ("colsum", "forall(c, 0, ichan, " + col.format(c="c", n="nsamps") + ")"),
+        ("cur", col.format(c="ichan", n="isamp")),
         ("frame", "forall(c, ichan + 1, len(outarray), outarray[c] == old(outarray[c]))")])
-    c.ensure("colsum", "forall(c, 0, nchans, " + col.format(n="nsamps") + ")")
+    c.ensure("colsum", "forall(c, 0, nchans, " + col.format(c="c", n="nsamps") + ")")
     c.ensure("frame", "forall(c, nchans, len(outarray), outarray[c] == old(outarray[c]))")
     reg.add(c)
 
@@ -67,25 +72,23 @@ def register(reg):
     reg.add(c)
 
     # ------------------------------------------------------------------ dedisperse
-    c = Contract(K + "dedisperse", props=["C06", "C09"],
+    c = Contract(K + "dedisperse", props=["C06", "C09"], ghost_params=dict(GB),
                  params={"inarray": Arr("real", None, view=True), "outarray": Arr("real", "f4"),
                          "delays": Arr("int", "i4"), "maxdelay": Int(), "nchans": Int(), "nsamps": Int(),
                          "index": Int()},
                  requires=["nchans >= 0", "maxdelay >= 0", "nsamps >= 0", "nchans * nsamps <= len(inarray)",
                            "nchans <= len(delays)", "forall(c, 0, nchans, 0 <= delays[c] and delays[c] <= maxdelay)",
                            "index >= 0", "implies(nsamps > maxdelay, index + nsamps - maxdelay <= len(outarray))",
-                           "distinct(inarray, outarray, delays)"],
+                           "distinct(inarray, outarray, delays)", ATB],
                  modifies=["outarray"])
-    cell = ("outarray[index + t] == old(outarray[index + t]) + "
-            "dsum(arr(inarray), off(inarray) + nchans * t, arr(delays), off(delays), nchans, {n})")
+    cell = ("outarray[{j}] == old(outarray[{j}]) + dsum(arr(inarray), nchans, B + {j} - index, arr(delays), {n})")
     frame = "forall(k, 0, len(outarray), implies(k < index or k >= index + {n}, outarray[k] == old(outarray[k])))"
-    c.loops["0:isamp"] = LoopSpec([("dsum", "forall(t, 0, isamp, " + cell.format(n="nchans") + ")"),
+    c.loops["0:isamp"] = LoopSpec([("dsum", "forall(j, index, index + isamp, " + cell.format(j="j", n="nchans") + ")"),
                                    ("frame", frame.format(n="isamp"))])
-    c.loops["1:ichan"] = LoopSpec([("dsum", "forall(t, 0, isamp, " + cell.format(n="nchans") + ")"),
-                                   ("cur", cell.format(n="ichan").replace("index + t", "index + isamp")
-                                    .replace("nchans * t", "nchans * isamp")),
+    c.loops["1:ichan"] = LoopSpec([("dsum", "forall(j, index, index + isamp, " + cell.format(j="j", n="nchans") + ")"),
+                                   ("cur", cell.format(j="(index + isamp)", n="ichan")),
                                    ("frame", frame.format(n="isamp + 1"))])
-    c.ensure("dsum", "forall(t, 0, nsamps - maxdelay, " + cell.format(n="nchans") + ")")
+    c.ensure("dsum", "forall(j, index, index + nsamps - maxdelay, " + cell.format(j="j", n="nchans") + ")")
     c.ensure("frame", frame.format(n="(nsamps - maxdelay if nsamps > maxdelay else 0)"))
     reg.add(c)
 
@@ -102,7 +105,7 @@ def register(reg):
     reg.add(c)
 
     # ------------------------------------------------------------------ subband
-    c = Contract(K + "subband", props=["C07"],
+    c = Contract(K + "subband", props=["C07"], ghost_params=dict(GB),
                  params={"inarray": Arr("real", None, view=True), "outarray": Arr("real", "f4"),
                          "delays": Arr("int", "i4"), "chan_to_sub": Arr("int", "i4"), "maxdelay": Int(),
                          "nchans": Int(), "nsubs": Int(), "nsamps": Int()},
@@ -111,19 +114,18 @@ def register(reg):
                            "forall(c, 0, nchans, 0 <= delays[c] and delays[c] <= maxdelay)",
                            "forall(c, 0, nchans, 0 <= chan_to_sub[c] and chan_to_sub[c] < nsubs)",
                            "implies(nsamps > maxdelay, nsubs * (nsamps - maxdelay) <= len(outarray))",
-                           "distinct(inarray, outarray, delays, chan_to_sub)"],
+                           "distinct(inarray, outarray, delays, chan_to_sub)", ATB],
                  modifies=["outarray"])
-    cell = ("outarray[nsubs * t + s] == old(outarray[nsubs * t + s]) + dsel(arr(inarray), off(inarray) + nchans * t, "
-            "arr(delays), off(delays), nchans, arr(chan_to_sub), off(chan_to_sub), s, {n})")
+    cell = ("outarray[nsubs * {t} + s] == old(outarray[nsubs * {t} + s]) + dsel(arr(inarray), nchans, B + {t}, "
+            "arr(delays), arr(chan_to_sub), s, {n})")
     c.loops["0:isamp"] = LoopSpec([
-        ("dsel", "forall(t, 0, isamp, forall(s, 0, nsubs, " + cell.format(n="nchans") + "))"),
+        ("dsel", "forall(t, 0, isamp, forall(s, 0, nsubs, " + cell.format(t="t", n="nchans") + "))"),
         ("frame", "forall(k, nsubs * isamp, len(outarray), outarray[k] == old(outarray[k]))")])
     c.loops["1:ichan"] = LoopSpec([
-        ("dsel", "forall(t, 0, isamp, forall(s, 0, nsubs, " + cell.format(n="nchans") + "))"),
-        ("cur", "forall(s, 0, nsubs, " + cell.format(n="ichan").replace("nsubs * t", "nsubs * isamp")
-         .replace("nchans * t", "nchans * isamp") + ")"),
+        ("dsel", "forall(t, 0, isamp, forall(s, 0, nsubs, " + cell.format(t="t", n="nchans") + "))"),
+        ("cur", "forall(s, 0, nsubs, " + cell.format(t="isamp", n="ichan") + ")"),
         ("frame", "forall(k, nsubs * (isamp + 1), len(outarray), outarray[k] == old(outarray[k]))")])
-    c.ensure("dsel", "forall(t, 0, nsamps - maxdelay, forall(s, 0, nsubs, " + cell.format(n="nchans") + "))")
+    c.ensure("dsel", "forall(t, 0, nsamps - maxdelay, forall(s, 0, nsubs, " + cell.format(t="t", n="nchans") + "))")
     c.ensure("frame", "forall(k, nsubs * (nsamps - maxdelay if nsamps > maxdelay else 0), len(outarray), "
                       "outarray[k] == old(outarray[k]))")
     reg.add(c)
@@ -172,15 +174,15 @@ def register(reg):
 
     class U1(Arr):
         label = "u1"
-    c = Contract(K + "remove_zerodm", props=["C07"],
+    c = Contract(K + "remove_zerodm", props=["C07"], ghost_params=dict(GB),
                  params={"inarray": Arr("real", None, view=True), "outarray": Arr("real", "f4"),
                          "bpass": Arr("real", "f4"), "chanwts": Arr("real", "f4"), "nchans": Int(), "nsamps": Int()},
                  cases={"outarray": [F4("real", "f4"), U1("int", "u1")]},
                  requires=["nchans >= 0", "nsamps >= 0", "nchans * nsamps <= len(inarray)",
                            "nchans * nsamps <= len(outarray)", "nchans <= len(bpass)", "nchans <= len(chanwts)",
-                           "distinct(inarray, outarray, bpass, chanwts)"],
+                           "distinct(inarray, outarray, bpass, chanwts)", ATB],
                  modifies=["outarray"])
-    val = ("(inarray[nchans * {t} + {c}] - ssum(arr(inarray), off(inarray) + nchans * {t}, 1, nchans) * chanwts[{c}]"
+    val = ("(inarray[nchans * {t} + {c}] - rsum(arr(inarray), nchans, B + {t}, nchans) * chanwts[{c}]"
            " + bpass[{c}])")
     # float32 output: the value itself; uint8 output: its truncation when it is representable
     cell = ("(outarray[nchans * {t} + {c}] == " + val + ") if is_real_array(outarray) else "
@@ -190,9 +192,9 @@ def register(reg):
     frame = "forall(k, nchans * {n}, len(outarray), outarray[k] == old(outarray[k]))"
     c.loops["0:isamp"] = LoopSpec([("rows", rows), ("frame", frame.format(n="isamp"))])
     c.loops["1:ichan"] = LoopSpec([("rows", rows), ("frame", frame.format(n="isamp")),
-                                   ("zerodm", "zerodm == ssum(arr(inarray), off(inarray) + nchans * isamp, 1, ichan)")])
+                                   ("zerodm", "zerodm == rsum(arr(inarray), nchans, B + isamp, ichan)")])
     c.loops["2:ichan"] = LoopSpec([("rows", rows), ("frame", frame.format(n="(isamp + 1)")),
-                                   ("zerodm", "zerodm == ssum(arr(inarray), off(inarray) + nchans * isamp, 1, nchans)"),
+                                   ("zerodm", "zerodm == rsum(arr(inarray), nchans, B + isamp, nchans)"),
                                    ("cur", "forall(c, 0, ichan, " + cell.format(t="isamp", c="c") + ")"),
                                    ("curframe", "forall(k, nchans * isamp + ichan, nchans * (isamp + 1), "
                                                 "outarray[k] == old(outarray[k]))")])
